@@ -393,7 +393,11 @@ private:
 
   void skipWhitespaceOutsideText()
   {
-    // Only skip if next thing is markup or beginning; do not consume text spaces.
+    // Only skip if next thing is markup or the end; do not consume text spaces:
+    // white space that begins a text node is rewound so that readText() reports it.
+    const std::size_t cur0 = _cur;
+    const std::size_t line0 = _line;
+    const std::size_t col0 = _col;
     while (!eof())
     {
       char ch = peek();
@@ -407,7 +411,10 @@ private:
         // stop; next() will handle
         return;
       }
-      // Non-space text ahead; let readText handle
+      // Non-space text ahead; let readText handle it, leading white space included
+      _cur = cur0;
+      _line = line0;
+      _col = col0;
       return;
     }
   }
